@@ -23,6 +23,15 @@ type hMLOut struct { // marker in the middle
 	Z hP2 `argmapper:"z"`
 }
 
+// an unexported embedded type next to the marker is NOT a parameter (it cannot be set)
+type hhidden struct{ N int }
+
+type hWithHidden struct {
+	Struct
+	hhidden
+	A hP0
+}
+
 // HarnessShapes — resolver behaviour on functions whose structs have unusual shapes.
 //
 //	kind 0 (C05): a converter whose input struct carries the marker last and whose result
@@ -30,6 +39,10 @@ type hMLOut struct { // marker in the middle
 //	              and every function receives the right value
 //	kind 1 (C02): a target whose struct reaches the marker only through an embedded struct is
 //	              NOT a parameter struct; loose values matching its field names do not satisfy it
+//	kind 3 (C06): a parameter struct with an unexported embedded type: it is no parameter, and
+//	              a supplied value of that type is simply unused — Call and Redefine do not panic
+//	kind 4 (C06): a target whose last result is of a CONCRETE error type: the function returned
+//	              by Redefine gets its own error result; a failing inner call is reported, not a panic
 //	kind 2 (C13): an embedded exported type next to the marker is a named parameter; when
 //	              nothing supplies it the call is refused and the error names exactly it
 func HarnessShapes(kind int) {
@@ -121,6 +134,73 @@ func HarnessShapes(kind int) {
 		r = t2.Call(Named("a", hP0{x}), Named("hbase", HBase{N: 7}))
 		vnAssert(r.Err() == nil && got.A.ID == x && got.N == 7, "C13.shapes.supplied-embedded-parameter-is-injected")
 		vnCover("C13.shapes-checked")
+	case 3:
+		ran := 0
+		var got hWithHidden
+		target, err := NewFunc(func(in hWithHidden) hP0 { ran++; got = in; return in.A })
+		vnNote("parameter struct with an unexported embedded type; a value of that type is supplied as well")
+		vnAssert(err == nil, "C06.shapes.function-accepted")
+		if err != nil {
+			return
+		}
+		vs := target.Input().Values()
+		vnAssert(len(vs) == 1 && vs[0].Name == "a", "C06.shapes.unexported-embedded-type-is-no-parameter")
+		var r Result
+		if hGuardPlain(func() { r = target.Call(Named("a", hP0{x}), Typed(hhidden{N: 3}), Named("hhidden", hhidden{N: 4})) }) {
+			vnAssert(false, "C06.shapes.call-does-not-panic")
+			return
+		}
+		vnAssert(r.Err() == nil && ran == 1 && got.A.ID == x && got.N == 0, "C06.shapes.call-succeeds-and-leaves-the-unexported-field-alone")
+		conv, _ := NewFunc(func(in hWithHidden) hP1 { return hP1{in.A.ID} })
+		t2, _ := NewFunc(func(in hP1) hP2 { return hP2{in.ID} })
+		if hGuardPlain(func() {
+			_, _ = t2.Redefine(ConverterFunc(conv), FilterInput(FilterType(hType(hTP0))))
+			_, _ = t2.Redefine(ConverterFunc(conv), Typed(hhidden{N: 5}))
+		}) {
+			vnAssert(false, "C06.shapes.redefine-does-not-panic")
+			return
+		}
+		vnCover("C06.shapes-checked")
+	case 4:
+		fails := vnBool("convFails")
+		convErr := fmt.Errorf("conversion failed")
+		conv, err1 := NewFunc(func(in hP0) (hP1, error) {
+			if fails {
+				return hP1{}, convErr
+			}
+			return hP1{in.ID}, nil
+		})
+		target, err2 := NewFunc(func(in hP1) *hErrT { return &hErrT{ID: in.ID} })
+		vnNote(fmt.Sprintf("target whose only result has a concrete error type, redefined over a converter (fails=%v)", fails))
+		vnAssert(err1 == nil && err2 == nil, "C06.shapes.functions-accepted")
+		if err1 != nil || err2 != nil {
+			return
+		}
+		var nf *Func
+		var err error
+		if hGuardPlain(func() { nf, err = target.Redefine(ConverterFunc(conv), FilterInput(FilterType(hType(hTP0)))) }) {
+			vnAssert(false, "C06.shapes.redefine-does-not-panic")
+			return
+		}
+		vnAssert(err == nil && nf != nil, "C06.shapes.redefine-succeeds")
+		if err != nil || nf == nil {
+			return
+		}
+		var r Result
+		if hGuardPlain(func() { r = nf.Call(Typed(hP0{x})) }) {
+			vnAssert(false, "C06.shapes.redefined-call-does-not-panic")
+			return
+		}
+		if fails {
+			vnAssert(r.Err() == convErr, "C06.shapes.redefined-call-reports-the-converter's-error")
+		} else {
+			vnAssert(r.Err() == nil && r.Len() == 1, "C06.shapes.redefined-call-succeeds")
+			if r.Err() == nil && r.Len() == 1 {
+				e, ok := r.Out(0).(*hErrT)
+				vnAssert(ok && e != nil && e.ID == x, "C06.shapes.concrete-error-typed-result-is-an-ordinary-output")
+			}
+		}
+		vnCover("C06.shapes-checked")
 	}
 	_ = fmt.Sprint
 }
